@@ -207,10 +207,13 @@ Print Assumptions C37_wellformed_remove_successors_nodes_leaf_partial.
 Example C37_leaf_example :
   let ops := [RemoveNodes [0] true; RemoveNodesConnections [0]; RemoveNodes [1; 2] true;
               RemoveNodesConnections [2; 1]; RemoveNodes [3] true] in
-  exists g0 g, init [0; 1; 2; 3] [(0, 1); (0, 2); (1, 3); (2, 3)] = Ok g0 /\ history_ok g0 ops = true /\
-    run g0 ops = Ok g /\ pre_opb g (RemoveSuccessorsNodes 3) = true /\ dget (g_succs g) 3 = Some [] /\
-    step g (RemoveSuccessorsNodes 3) = Ok (mkG [] [] [] [] None []).
-Proof. eexists. eexists. split; [vm_compute; reflexivity|]. repeat split; vm_compute; reflexivity. Qed.
+  let g0 := mkG [0; 1; 2; 3] [(0, 1); (0, 2); (1, 3); (2, 3)] [(0, []); (1, [0]); (2, [0]); (3, [1; 2])]
+                [(0, [1; 2]); (1, [3]); (2, [3]); (3, [])] None [] in
+  let g := mkG [] [] [(3, [])] [(3, [])] None [3] in
+  init [0; 1; 2; 3] [(0, 1); (0, 2); (1, 3); (2, 3)] = Ok g0 /\ history_ok g0 ops = true /\
+  run g0 ops = Ok g /\ pre_opb g (RemoveSuccessorsNodes 3) = true /\ dget (g_succs g) 3 = Some [] /\
+  step g (RemoveSuccessorsNodes 3) = Ok (mkG [] [] [] [] None []).
+Proof. vm_compute. repeat split. Qed.
 
 (* ------------------------------------------------------------------------------------------
    The model's fuel for _checking_successors_nodes (depth = |keys| + 1) is not a hidden
@@ -234,3 +237,10 @@ Theorem C37_followers_spec :
                  (forall x, In x (collect_followers ns all []) <-> In x all /\ In x ns).
 Proof. exact followers_spec. Qed.
 Print Assumptions C37_followers_spec.
+
+(* the hypothesis is met: the chain 0->1->2 explored from 0 with depth 3 (and hence with depth 4 = |keys|+1) *)
+Example C37_fuel_example :
+  succ_all 3 [(0, [1]); (1, [2]); (2, [])] 0 = Ok [1; 2] /\
+  succ_all 4 [(0, [1]); (1, [2]); (2, [])] 0 = Ok [1; 2] /\
+  succ_all 2 [(0, [1]); (1, [2]); (2, [])] 0 = Err ERecursion.
+Proof. repeat split; vm_compute; reflexivity. Qed.
